@@ -47,58 +47,80 @@ func c04DatagramBuffers(c *Ctx) {
 				if _, isLit := fa.X.(*ssa.Alloc); !isLit {
 					continue
 				}
-				n++
-				key := fmt.Sprintf("DummyUDPConn.Buffer in %s #%d", shortFn(fn), n)
-				if !InLoop(b) {
-					c.Ok("datagram-buffer-per-connection", key, p.InstrPos(st), "not in a receive loop")
-					continue
+				// a constructor (NewDummyUDPConn(payload, …)): the buffer is what each call site passes, judged in that site's loop
+				type site struct {
+					v  ssa.Value
+					b  *ssa.BasicBlock
+					at ssa.Instruction
+					fn *ssa.Function
 				}
-				// walk to the storage the slice is cut from
-				v := st.Val
-				why := ""
-				for depth := 0; depth < 6 && why == ""; depth++ {
-					switch x := v.(type) {
-					case *ssa.Slice:
-						v = x.X
-						continue
-					case *ssa.Alloc:
-						if !sameLoop(x.Block(), b) {
-							why = "the buffer " + x.Comment + " is allocated once, outside the receive loop"
+				sites := []site{{st.Val, b, st, fn}}
+				if pr, isP := st.Val.(*ssa.Parameter); isP && !InLoop(b) {
+					sites = nil
+					idx := paramIdx(pr)
+					for _, g := range p.Funcs() {
+						for _, call := range Calls(g) {
+							if call.Common().StaticCallee() == fn && idx < len(call.Common().Args) {
+								sites = append(sites, site{call.Common().Args[idx], call.Block(), call, g})
+							}
 						}
-					case *ssa.MakeSlice:
-						if !sameLoop(x.Block(), b) {
-							why = "the buffer is made once, outside the receive loop"
-						}
-					case *ssa.UnOp:
-						if fa2, ok := x.X.(*ssa.FieldAddr); ok {
-							v = fa2.X
-							continue
-						}
-						if d := Deref(x); d != ssa.Value(x) {
-							v = d // a single-assignment variable captured by a closure
-							continue
-						}
-						why = "cannot trace the buffer: " + RenderN(v, 3)
-					case *ssa.Extract:
-						if ins, ok := x.Tuple.(ssa.Instruction); ok && !sameLoop(ins.Block(), b) {
-							why = "the buffer comes from a value produced outside the receive loop"
-						}
-					case *ssa.TypeAssert:
-						v = x.X
-						continue
-					case *ssa.Call:
-						if !sameLoop(x.Block(), b) {
-							why = "the buffer comes from a call made outside the receive loop"
-						}
-					default:
-						why = "the buffer is " + RenderN(v, 3) + ", which outlives one iteration of the receive loop"
 					}
-					break
 				}
-				if why == "" {
-					c.Ok("datagram-buffer-per-connection", key, p.InstrPos(st), "storage produced in the same loop iteration")
-				} else {
-					c.Violate("datagram-buffer-per-connection", key, p.InstrPos(st), why+": every datagram connection handed out aliases the same bytes, so a datagram that arrives before the previous handler has read its request overwrites it (the earlier command is never decoded, the later one is reported twice)")
+				for _, sx := range sites {
+					st, b, fn := sx.at, sx.b, sx.fn
+					n++
+					key := fmt.Sprintf("DummyUDPConn.Buffer in %s #%d", shortFn(fn), n)
+					if !InLoop(b) {
+						c.Ok("datagram-buffer-per-connection", key, p.InstrPos(st), "not in a receive loop")
+						continue
+					}
+					// walk to the storage the slice is cut from
+					v := sx.v
+					why := ""
+					for depth := 0; depth < 6 && why == ""; depth++ {
+						switch x := v.(type) {
+						case *ssa.Slice:
+							v = x.X
+							continue
+						case *ssa.Alloc:
+							if !sameLoop(x.Block(), b) {
+								why = "the buffer " + x.Comment + " is allocated once, outside the receive loop"
+							}
+						case *ssa.MakeSlice:
+							if !sameLoop(x.Block(), b) {
+								why = "the buffer is made once, outside the receive loop"
+							}
+						case *ssa.UnOp:
+							if fa2, ok := x.X.(*ssa.FieldAddr); ok {
+								v = fa2.X
+								continue
+							}
+							if d := Deref(x); d != ssa.Value(x) {
+								v = d // a single-assignment variable captured by a closure
+								continue
+							}
+							why = "cannot trace the buffer: " + RenderN(v, 3)
+						case *ssa.Extract:
+							if ins, ok := x.Tuple.(ssa.Instruction); ok && !sameLoop(ins.Block(), b) {
+								why = "the buffer comes from a value produced outside the receive loop"
+							}
+						case *ssa.TypeAssert:
+							v = x.X
+							continue
+						case *ssa.Call:
+							if !sameLoop(x.Block(), b) {
+								why = "the buffer comes from a call made outside the receive loop"
+							}
+						default:
+							why = "the buffer is " + RenderN(v, 3) + ", which outlives one iteration of the receive loop"
+						}
+						break
+					}
+					if why == "" {
+						c.Ok("datagram-buffer-per-connection", key, p.InstrPos(st), "storage produced in the same loop iteration")
+					} else {
+						c.Violate("datagram-buffer-per-connection", key, p.InstrPos(st), why+": every datagram connection handed out aliases the same bytes, so a datagram that arrives before the previous handler has read its request overwrites it (the earlier command is never decoded, the later one is reported twice)")
+					}
 				}
 			}
 		}
@@ -389,6 +411,14 @@ func c04BodyConsumed(c *Ctx) {
 					// (*http.Request).Write sends and thereby consumes the body
 					return len(cc.Args) > 0 && cc.Args[0] == req
 				}
+				// a helper that is handed the body and reads it to its end before every successful return
+				if InRepo(f) && f.Blocks != nil {
+					for ai, a := range cc.Args {
+						if isBody(a) && ai < len(f.Params) && helperDrains(f, f.Params[ai]) {
+							return true
+						}
+					}
+				}
 				return false
 			}
 			n++
@@ -416,4 +446,41 @@ func c04BodyConsumed(c *Ctx) {
 		}
 	}
 	c.Floor(rule, 1, "httpService.Handle (also serving https)")
+}
+
+// helperDrains: every return of hf that does not report an error is dominated by io.Copy(_, r) / ReadAll(r) on parameter r.
+func helperDrains(hf *ssa.Function, r *ssa.Parameter) bool {
+	var drains []ssa.CallInstruction
+	for _, call := range Calls(hf) {
+		cc := call.Common()
+		f := cc.StaticCallee()
+		if f == nil {
+			continue
+		}
+		if FuncIs(f, "io", "Copy") && len(cc.Args) == 2 && Unwrap(cc.Args[1]) == ssa.Value(r) {
+			drains = append(drains, call)
+		}
+		if (FuncIs(f, "io/ioutil", "ReadAll") || FuncIs(f, "io", "ReadAll")) && Unwrap(cc.Args[0]) == ssa.Value(r) {
+			drains = append(drains, call)
+		}
+	}
+	if len(drains) == 0 {
+		return false
+	}
+	for _, ret := range Returns(hf) {
+		rv := RetVals(ret)
+		if len(rv) > 0 && IsErrorType(rv[len(rv)-1].Type()) && !IsNilConst(rv[len(rv)-1]) {
+			continue // the caller gives the connection up
+		}
+		ok := false
+		for _, d := range drains {
+			if d.Block().Dominates(ret.Block()) {
+				ok = true
+			}
+		}
+		if !ok {
+			return false
+		}
+	}
+	return true
 }
